@@ -2,9 +2,11 @@ use crate::engine::Runner;
 
 pub mod alloc_sm;
 pub mod c02;
+pub mod c03;
 pub mod c04;
 pub mod c06;
 pub mod c07;
+pub mod c08;
 pub mod c11;
 pub mod c12;
 pub mod c13;
@@ -20,6 +22,7 @@ pub mod c22;
 pub mod c24;
 pub mod c25;
 pub mod c29;
+pub mod c31;
 pub mod progcase;
 
 pub type CheckFn = fn(&mut Runner);
@@ -27,9 +30,11 @@ pub type CheckFn = fn(&mut Runner);
 pub fn registry() -> Vec<(&'static str, CheckFn)> {
     vec![
         ("C02", c02::run as CheckFn),
+        ("C03", c03::run as CheckFn),
         ("C04", c04::run as CheckFn),
         ("C06", c06::run as CheckFn),
         ("C07", c07::run as CheckFn),
+        ("C08", c08::run as CheckFn),
         ("C11", c11::run as CheckFn),
         ("C12", c12::run as CheckFn),
         ("C13", c13::run as CheckFn),
@@ -45,5 +50,6 @@ pub fn registry() -> Vec<(&'static str, CheckFn)> {
         ("C24", c24::run as CheckFn),
         ("C25", c25::run as CheckFn),
         ("C29", c29::run as CheckFn),
+        ("C31", c31::run as CheckFn),
     ]
 }
